@@ -77,13 +77,22 @@ class HandleErr(Exception):
         self.handle = lambda: ident
 
 
-# exceptions that cannot travel between processes as they are: a result may carry a stand-in that names the class
-NONPORTABLE = {'TwoArgErr': lambda i: TwoArgErr(i, 'oops'), 'KwErr': lambda i: KwErr(f'bad {i}', code=i), 'HandleErr': HandleErr}
+class MixedErr(Exception):
+    """one class, instances that differ: every other instance carries something that cannot be pickled (a handle, a lock, the
+    generator that failed) - whether an exception can travel is a property of the instance, not of its class"""
+    def __init__(self, ident):
+        super().__init__(ident)
+        if ident % 2:
+            self.handle = lambda: ident
 
-EXC = {'TwoArgErr': TwoArgErr, 'KwErr': KwErr, 'HandleErr': HandleErr,
+
+# exceptions that cannot travel between processes as they are: a result may carry a stand-in that names the class
+NONPORTABLE = {'TwoArgErr': lambda i: TwoArgErr(i, 'oops'), 'KwErr': lambda i: KwErr(f'bad {i}', code=i), 'HandleErr': HandleErr, 'MixedErr': MixedErr}
+
+EXC = {'MixedErr': MixedErr, 'TwoArgErr': TwoArgErr, 'KwErr': KwErr, 'HandleErr': HandleErr,
        'ValueError': ValueError, 'KeyError': KeyError, 'LookupError': LookupError, 'ZeroDivisionError': ZeroDivisionError, 'ArithmeticError': ArithmeticError,
        'Exception': Exception, 'CustomErr': CustomErr, 'OSError': OSError, 'FileNotFoundError': FileNotFoundError}
-PARENTS = {'TwoArgErr': ['Exception'], 'KwErr': ['Exception'], 'HandleErr': ['Exception'], 'KeyError': ['LookupError', 'Exception'], 'ZeroDivisionError': ['ArithmeticError', 'Exception'], 'FileNotFoundError': ['OSError', 'Exception'],
+PARENTS = {'MixedErr': ['Exception'], 'TwoArgErr': ['Exception'], 'KwErr': ['Exception'], 'HandleErr': ['Exception'], 'KeyError': ['LookupError', 'Exception'], 'ZeroDivisionError': ['ArithmeticError', 'Exception'], 'FileNotFoundError': ['OSError', 'Exception'],
            'ValueError': ['Exception'], 'CustomErr': ['Exception'], 'LookupError': ['Exception'], 'OSError': ['Exception']}
 
 
@@ -342,9 +351,12 @@ def all_schedules(spec, workers, pickable, limit):
 
 def gen_spec(rnd, n):
     spec = []
+    themed = rnd.random() < 0.15     # every failing payload raises the same class, with instances that can and cannot be pickled
     for _ in range(n):
-        if rnd.random() < 0.4:
-            exc = rnd.choice(['ValueError', 'KeyError', 'ZeroDivisionError', 'CustomErr', 'FileNotFoundError', 'TwoArgErr', 'KwErr', 'HandleErr'])
+        if rnd.random() < (0.7 if themed else 0.4):
+            exc = rnd.choice(['ValueError', 'KeyError', 'ZeroDivisionError', 'CustomErr', 'FileNotFoundError', 'TwoArgErr', 'KwErr', 'HandleErr', 'MixedErr'])
+            if themed:
+                exc = 'MixedErr'
             r = rnd.random()
             allowed = [] if r < 0.4 else [exc] if r < 0.7 else [rnd.choice(PARENTS[exc])]
             spec.append((exc, allowed))
